@@ -124,7 +124,7 @@ def ensure_facts(repo=REPO, verbose=True):
             ents.sort(key=lambda e: os.stat(os.path.join(CACHE, e)).st_mtime, reverse=True)
             def _is_main(e):
                 try:
-                    return open(os.path.join(CACHE, e, "REPO")).read().strip() == os.path.realpath(REPO)
+                    return open(os.path.join(CACHE, e, "REPO")).read().strip() == os.path.realpath("/repo")
                 except OSError:
                     return False
             # scratch copies (variant campaigns) churn quickly: keep 40 of them, and separately the 6 latest states of the real tree
